@@ -260,6 +260,9 @@ def run(tier, seed):
     n_cases = 250 if tier == "quick" else 4000
     rng = random.Random(seed)
     cases = [cc.gen_slice_case(rng, k) for k in range(n_cases)]
+    # dominant-cell stream (see common_cases.dominate): variances / standard errors of proportions that
+    # are 1 - O(1e-6) and O(1e-6), where tolerance-style edits (np.isclose, clipping) become visible
+    cc.dominate_some(cases, seed)
     coq_s, nterms = evaluate(cases, rep)
     rep.cov["rule"] = (
         "random.Random(seed): same survey/insertion generator as C03 (all CAT|CAT_DATE|MR|CA pairings, strands, "
